@@ -21,9 +21,19 @@ def IRR(
     """
     # `guess` is not used, but unnecessary, since it is a pure perforamnce
     # optimization.
+    _raise_error_in(values)
     values = xl.flatten(values)
     rate = _single_irr(values)
     return npf.irr(values) if rate is None else rate
+
+
+def _raise_error_in(*arrays):
+    """An error value among the cells of a range is the result of a function
+    that works on the whole range (the first one, if there are several)."""
+    for array in arrays:
+        for item in array.flat:
+            if isinstance(item, xlerrors.ExcelError):
+                raise item
 
 
 def _single_irr(values):
@@ -305,6 +315,7 @@ def XIRR(
         algorithm-of-xirr-funcation
     """
 
+    _raise_error_in(values, dates)
     values = values.flatten(func_xltypes.Number, None)
     dates = dates.flatten(func_xltypes.DateTime, None)
     # need to cast dates and guess to Python types else optimizer complains
@@ -347,6 +358,7 @@ def XNPV(
     https://support.microsoft.com/en-us/office/
         xnpv-function-1b42bbf6-370f-4532-a0eb-d67c16b664b7
     """
+    _raise_error_in(values, dates)
     # Only drop what could not be cast: a zero cash flow is a value (the
     # default filter of flatten() would drop it and desynchronise the dates).
     values = values.flatten(func_xltypes.Number, _is_castable)
